@@ -14,7 +14,8 @@ the skewed pairing non-increasing, in-place update of the caller's x / u, and a 
 the documented update rules (gives expected/observed when model and implementation disagree).
 Aliasing gradients: GradientMethod is also run on f = 1/2||x-y||^2 with a gradf that returns its argument, a view of it
 (lambda x: x, linop Identity.N / Reshape.N / Transpose.N, R.H*R) or a persistent caller-owned buffer; the trajectory must be
-the same and the buffer must not be written by update().
+the same; with an incrementally maintained gradient buffer a write by update() corrupts the later gradients and shows in
+the trajectory (a write into a buffer that gradf overwrites completely is only counted).
 Not alarms: the same-time pairing (x_k,u_k) is not monotone (counted in the evidence only); the accelerated
 branch writes `tau *= theta` / `sigma /= theta` into a caller-supplied step ARRAY (recorded only).
 """
@@ -235,7 +236,7 @@ def coq_step(t, cplx):
 # gradients that RETURN THEIR ARGUMENT (the object itself or a view of it) or a caller-owned persistent buffer.
 # f = 1/2||x - y||^2 (A = I): the gradient of f at x is x - y, for y = 0 it is x itself, so `lambda x: x`, `A.N` of
 # Identity / Reshape / Transpose operators (which hand back their input or a view of it) are legitimate gradf arguments.
-GALIAS = ("self", "view", "identity-N", "reshape-N", "transpose-N", "reshape-HR", "transpose-HT", "buffer")
+GALIAS = ("self", "view", "identity-N", "reshape-N", "transpose-N", "reshape-HR", "transpose-HT", "buffer", "buffer-incr")
 
 
 def make_gradf(sp, case, A, y, n, tr):
@@ -253,6 +254,20 @@ def make_gradf(sp, case, A, y, n, tr):
             np.subtract(v, y, out=buf)
             tr["last"] = buf.copy()
             return buf
+        return gradf
+    if k == "buffer-incr":
+        # the caller keeps the gradient of the quadratic up to date incrementally: grad(v) = grad(v_prev) + (v - v_prev).
+        # The array it hands back is its own state; a solver that writes into it corrupts every later gradient,
+        # which the trajectory oracles then see.
+        st = {}
+
+        def gradf(v):
+            if "g" not in st:
+                st["g"] = v - y
+            else:
+                st["g"] += v - st["prev"]
+            st["prev"] = v.copy()
+            return st["g"]
         return gradf
     if np.any(y != 0):
         raise ValueError("aliasing gradient needs y = 0")
@@ -382,10 +397,9 @@ def oracle_gm(case, r):
                 bad.append((name, "objective gap %r exceeds the bound %r at update %d" % (F[k] - Fs, bound, k),
                             dict(k=k, expected="<= %r" % bound, observed=F[k] - Fs, xstar=store(xs))))
                 break
-    if r.get("buffer_bad"):
-        bb = r["buffer_bad"]
-        bad.append(("gradf-buffer-modified", "update %d modified the caller-owned array returned by gradf" % bb["k"],
-                    dict(k=bb["k"], expected=bb["expected"], observed=bb["observed"])))
+    # a write into the array gradf returned is reported only as a statistic: when gradf overwrites the whole buffer on
+    # every call the trajectory is unaffected and the property holds (the "buffer-incr" family makes such a write visible
+    # in the trajectory, where the oracles above judge it)
     if case.get("galias") and case["g"] in ("none", "noop") and not case["acc"] and not np.any(y != 0):
         # f = 1/2||x||^2, no prox: x_{k+1} = (1 - alpha) x_k, whatever array gradf hands back
         sc = max(1.0, float(np.max(np.abs(x0))))
@@ -414,8 +428,9 @@ def oracle_gm(case, r):
                                            z=store(o["z"]) if case["acc"] else None))))
             break
     return bad, dict(accurate=accurate, moved=bool(obs and obs[0]["resid"] > 0),
-                     alias_seen=bool(case.get("galias") and case["galias"] != "buffer" and r.get("aliased")),
-                     alias_missing=bool(case.get("galias") and case["galias"] != "buffer" and not r.get("aliased")))
+                     alias_seen=bool(case.get("galias") and not case["galias"].startswith("buffer") and r.get("aliased")),
+                     alias_missing=bool(case.get("galias") and not case["galias"].startswith("buffer") and not r.get("aliased")),
+                     buffer_written=bool(r.get("buffer_bad")))
 
 
 # ---------------------------------------------------------------- PDHG
@@ -610,12 +625,12 @@ def gen_gm_alias(rng):
     if cplx and a * b > 6:
         b = 2
     n = a * b
-    galias = rng.choice(GALIAS + ("self", "buffer"))
+    galias = rng.choice(GALIAS + ("self", "buffer-incr"))
     g = rng.choice(["none", "none", "none", "noop", "l1", "l2"] + ([] if cplx else ["box"]))
     c = dict(kind="gm", galias=galias, shape2=[a, b], m=n, n=n, cplx=cplx, g=g, seed=rng.randrange(2 ** 31), akind="identity",
              x0scale=rng.choice([1.0, 1.0, 3.0]), niter=rng.randint(6, 16), acc=rng.random() < 0.5,
              frac=rng.choice([0.5, 0.5, 0.9, 0.25, 1.0, round(rng.uniform(0.05, 1.0), 3)]),
-             yzero=(galias != "buffer") or rng.random() < 0.3)
+             yzero=(not galias.startswith("buffer")) or rng.random() < 0.3)
     if g in ("l1", "l2"):
         c["lam"] = rng.choice([0.01, 0.1, 0.5, 1.0])
     if g == "box":
@@ -657,6 +672,8 @@ def corpus_cases():
         dict(base, kind="gm", galias="transpose-HT", shape2=[3, 2], m=6, n=6, cplx=True, g="none", acc=False, frac=0.5, akind="identity", yzero=True, niter=8),
         dict(base, kind="gm", galias="buffer", shape2=[2, 2], m=4, n=4, cplx=False, g="none", acc=False, frac=0.5, akind="identity", yzero=False, niter=8),
         dict(base, kind="gm", galias="buffer", shape2=[2, 1], m=2, n=2, cplx=True, g="l1", lam=0.1, acc=True, frac=1.0, akind="identity", yzero=False, niter=8),
+        dict(base, kind="gm", galias="buffer-incr", shape2=[2, 2], m=4, n=4, cplx=False, g="none", acc=False, frac=0.5, akind="identity", yzero=False, niter=8),
+        dict(base, kind="gm", galias="buffer-incr", shape2=[3, 1], m=3, n=3, cplx=True, g="l1", lam=0.1, acc=True, frac=0.9, akind="identity", yzero=False, niter=8),
         dict(base, kind="pd", m=5, n=5, cplx=False, g="l2", lam=0.1, steps=("s", "s"), frac=1.0, theta=1.0, gp=0.0, gd=0.0, u0scale=0.0),
         dict(base, kind="pd", m=4, n=6, cplx=False, g="l1", lam=0.5, steps=("a", "a"), frac=1.0, theta=1.0, gp=0.0, gd=0.0, u0scale=1.0),
         dict(base, kind="pd", m=3, n=3, cplx=True, g="l2", lam=1.0, steps=("a", "a"), frac=0.9, theta=1.0, gp=1.0, gd=0.0, u0scale=0.0),
@@ -709,7 +726,7 @@ def run(ctx):
     cases += [gen_gm_alias(rng) for _ in range(ctx.n(60, 800))]       # gradf returning its argument / a view / a persistent buffer
     done, oracle_bad = [], []
     stats = dict(same_time_nonmonotone=0, fejer_checked=0, saddle_checked=0, rate_checked=0, step_array_written=0,
-                 alias_seen=0, alias_missing=0)
+                 alias_seen=0, alias_missing=0, buffer_written=0)
     for c in cases:
         try:
             r, bad, info, expr = evaluate(sp, c)
@@ -720,7 +737,7 @@ def run(ctx):
             continue
         ctx.count(cls_of(c), key=json.dumps(c, sort_keys=True), nontrivial=info["moved"] and c["m"] * c["n"] > 1,
                   sample={"params": c, "updates": len(r["obs"]), "last_resid": r["obs"][-1]["resid"] if r["obs"] else None})
-        for k in ("same_time_nonmonotone", "fejer_checked", "saddle_checked", "alias_seen", "alias_missing"):
+        for k in ("same_time_nonmonotone", "fejer_checked", "saddle_checked", "alias_seen", "alias_missing", "buffer_written"):
             stats[k] += int(bool(info.get(k)))
         stats["rate_checked"] += int(c["kind"] == "gm" and info["accurate"])
         stats["step_array_written"] += int(bool(r.get("wrote_steps")))
@@ -811,7 +828,7 @@ VALIDATED = [
     "convergence of the iterates to the minimiser; O(1/k^2) of accelerated PDHG (not proved; trajectories only)",
     "Fejer monotonicity with ARRAY (diagonal) steps: checked by the oracle, proved for scalar steps",
     "model == implementation: by trajectory correspondence on the sampled problems (floating point, 1e-9)",
-    "gradf returning its argument / a view / a caller-owned buffer: dynamic checks on the sampled runs (trajectory, buffer contents)",
+    "gradf returning its argument / a view / a caller-owned buffer: dynamic checks on the sampled runs (trajectory incl. an incrementally maintained gradient buffer)",
     "in-place update of the caller's x / u: dynamic check (object identity + contents) on every run; the alias IR of DESIGN 2.5 is not built",
     "resid (GradientMethod incl. the accelerated max(||x-x_old||, ||x-z||)/alpha; PDHG primal+dual): modelled and compared, no theorem",
 ]
